@@ -133,12 +133,12 @@ func runSolo(s InstSpec, file []byte) []byte {
 }
 
 type SchedCase struct {
-	Insts   []InstSpec `json:"instances"`
-	Sched   []int      `json:"schedule"`   // engine a: which instance takes the next API call (mod alive instances)
-	Junk    []int      `json:"junk_sizes"` // pool pollution: sizes of dirty buffers
-	NJunk   int        `json:"junk_buffers"`
-	Engine  string     `json:"engine"`      // "api" | "reentrant"
-	NestAt  []int      `json:"nest_at"`     // engine b: sink write indices of instance 0 at which instance 1.. run
+	Insts  []InstSpec `json:"instances"`
+	Sched  []int      `json:"schedule"`   // engine a: which instance takes the next API call (mod alive instances)
+	Junk   []int      `json:"junk_sizes"` // pool pollution: sizes of dirty buffers
+	NJunk  int        `json:"junk_buffers"`
+	Engine string     `json:"engine"`  // "api" | "reentrant"
+	NestAt []int      `json:"nest_at"` // engine b: sink write indices of instance 0 at which instance 1.. run
 }
 
 func pollute(fixtures map[string]bool, sizes []int, n int) {
